@@ -143,7 +143,7 @@ func genRegistry(r *rand.Rand, tier string) Case {
 		return Case{In: []int64{0}, Obs: []int64{-710}}
 	}
 	defer os.RemoveAll(dir)
-	h := &regH{r: r, dir: dir, nports: 2 + r.Intn(3), base: 30000 + r.Intn(30000)}
+	h := &regH{r: r, dir: dir, nports: 2 + r.Intn(3), base: 2000 + r.Intn(7800)} // below the slots of the stepped-loop sessions and the kernel's ephemeral range
 	for k := 0; k < 3; k++ {
 		l := vLayout{PL: 16384, Lens: []int64{int64(1000 + k)}, Pads: []bool{false}, Name: fmt.Sprintf("t%d", k), Total: int64(1000 + k)}
 		content := l.Content(int64(k) + 7)
